@@ -185,23 +185,32 @@ Qed.
 (* ---------- one parameter ---------- *)
 (* a VALUE parameter with implicit position whose DOP is a STANDARD-LENGTH-TYPE without bit mask
    and the IDENTICAL compu method *)
-Record fdesc := mkF { f_name : name; f_bl : Z; f_bt : btype; f_en : option enc; f_hl : bool; f_pt : btype }.
+(* f_const = Some cv: a CODED-CONST parameter with that value instead (f_pt is then unused) *)
+Record fdesc := mkF { f_name : name; f_bl : Z; f_bt : btype; f_en : option enc; f_hl : bool; f_pt : btype;
+                      f_const : option value }.
 Definition fname (x : fdesc) : name := f_name x.
 Definition mkp (x : fdesc) : param :=
-  P (f_name x) None None (KValue (DSimple (Std (f_bt x) (f_en x) (f_hl x) (f_bl x) None) CIdent (f_pt x)) None).
+  match f_const x with
+  | None => P (f_name x) None None
+              (KValue (DSimple (Std (f_bt x) (f_en x) (f_hl x) (f_bl x) None) CIdent (f_pt x)) None)
+  | Some cv => P (f_name x) None None (KCoded (Std (f_bt x) (f_en x) (f_hl x) (f_bl x) None) cv)
+  end.
+Definition is_value (x : fdesc) : bool := match f_const x with None => true | Some _ => false end.
 Definition fbytes (x : fdesc) : Z := nbytes_of (f_bl x) 0.
 
 (* the description is sane and the value is one the encoder accepts *)
 Definition fits (x : fdesc) (v : value) : Prop :=
   0 < f_bl x /\ is_numeric (f_bt x) && (64 <? f_bl x) = false /\
   isinstance_bt (f_pt x) v = true /\ isinstance_bt (f_bt x) v = true /\
-  codable v (f_bl x) (f_bt x) (f_en x) (f_hl x).
+  codable v (f_bl x) (f_bt x) (f_en x) (f_hl x) /\
+  match f_const x with Some cv => v = cv | None => True end.
 
 Lemma not_none_of_instance bt v : isinstance_bt bt v = true -> is_none v = false.
 Proof. destruct bt, v; simpl; congruence. Qed.
 
 Lemma enc_flat_param f x kv s v :
-  at_end s -> fits x v -> lookup (f_name x) kv = Some v ->
+  at_end s -> fits x v ->
+  lookup (f_name x) kv = (if is_value x then Some v else None) ->
   exists s' w,
     enc_param (S (S f)) (mkp x) kv s = Ok s' /\ at_end s' /\
     e_msg s' = e_msg s ++ w /\ blen w = fbytes x /\ e_cur s' = e_cur s + fbytes x /\
@@ -209,18 +218,24 @@ Lemma enc_flat_param f x kv s v :
     forall r o lk, extract_atomic (mkD (e_msg s' ++ r) o (e_cur s) 0 lk) (f_bl x) (f_bt x) (f_en x) (f_hl x)
                    = Ok (v, mkD (e_msg s' ++ r) o (e_cur s') 0 lk).
 Proof.
-  intros Hend (Hbl & Hwide & Hpt & Hbt & Hcod) Hl.
+  intros Hend (Hbl & Hwide & Hpt & Hbt & Hcod & Hc) Hl.
   destruct (emplace_val_at_end (set_bit s 0) v (f_bl x) (f_bt x) (f_en x) (f_hl x) (at_end_set_bit s Hend) Hbl Hwide Hcod)
     as (s1 & w & He & Hend1 & Hm & Hw & Hcur & Hwarn & Ho & Heop & Hlk & Hkp & Hrq & Hread).
   cbn [set_bit e_msg e_cur e_warn e_origin e_eop e_lkeys e_keypos e_req] in *.
   exists (set_bit s1 0), w.
   split.
-  - unfold mkp. cbn [enc_param]. unfold is_required. cbn [pkind_of]. rewrite Hl. cbn [negb orb guard bind].
-    unfold vget. rewrite Hl. rewrite (not_none_of_instance _ _ Hpt). cbn [negb guard bind opt_or0].
-    cbn [enc_dop]. cbn [valid_phys]. rewrite Hpt. cbn [guard bind p2i enc_dct std_apply_mask std_used_mask].
-    replace (if negb (f_hl x) && is_numeric (f_bt x) then option_map (@rev Z) None else None) with (@None (list Z))
-      by (destruct (negb (f_hl x) && is_numeric (f_bt x)); reflexivity).
-    rewrite He. rewrite ?(not_none_of_instance _ _ Hpt). reflexivity.
+  - unfold mkp, is_value in *. destruct (f_const x) as [cv|].
+    + subst cv. cbn [enc_param]. unfold is_required. cbn [pkind_of negb orb guard bind].
+      unfold vget. rewrite Hl. cbn [is_none orb guard bind opt_or0 enc_dct std_apply_mask std_used_mask].
+      replace (if negb (f_hl x) && is_numeric (f_bt x) then option_map (@rev Z) None else None) with (@None (list Z))
+        by (destruct (negb (f_hl x) && is_numeric (f_bt x)); reflexivity).
+      rewrite He. reflexivity.
+    + cbn [enc_param]. unfold is_required. cbn [pkind_of]. rewrite Hl. cbn [negb orb guard bind].
+      unfold vget. rewrite Hl. rewrite (not_none_of_instance _ _ Hpt). cbn [negb guard bind opt_or0].
+      cbn [enc_dop]. cbn [valid_phys]. rewrite Hpt. cbn [guard bind p2i enc_dct std_apply_mask std_used_mask].
+      replace (if negb (f_hl x) && is_numeric (f_bt x) then option_map (@rev Z) None else None) with (@None (list Z))
+        by (destruct (negb (f_hl x) && is_numeric (f_bt x)); reflexivity).
+      rewrite He. rewrite ?(not_none_of_instance _ _ Hpt). reflexivity.
   - destruct Hend1 as (A & B & C & D).
     repeat split; cbn [set_bit e_bit e_cur e_msg e_used e_warn e_origin e_eop e_lkeys e_keypos e_req]; auto.
 Qed.
@@ -230,10 +245,14 @@ Lemma dec_flat_param f x M o c lk v c' :
   extract_atomic (mkD M o c 0 lk) (f_bl x) (f_bt x) (f_en x) (f_hl x) = Ok (v, mkD M o c' 0 lk) ->
   dec_param (S (S f)) (mkp x) (mkD M o c 0 lk) = Ok (v, mkD M o c' 0 lk).
 Proof.
-  intros Hi H. unfold mkp. cbn [dec_param]. cbn [opt_or0 dset_bit d_msg d_origin d_cur d_lkeys].
-  cbn [dec_dop dec_dct]. unfold dset_bit at 1. cbn [d_msg d_origin d_cur d_lkeys]. rewrite H. cbn [bind].
-  cbn [valid_int dct_bt]. rewrite Hi. cbn [i2p bind fst snd dset_bit d_msg d_origin d_cur d_lkeys].
-  reflexivity.
+  intros Hi H. unfold mkp. destruct (f_const x) as [cv|].
+  - cbn [dec_param]. cbn [opt_or0 dset_bit d_msg d_origin d_cur d_lkeys].
+    cbn [dec_dct]. unfold dset_bit at 1. cbn [d_msg d_origin d_cur d_lkeys]. rewrite H.
+    cbn [bind fst snd dset_bit d_msg d_origin d_cur d_lkeys]. reflexivity.
+  - cbn [dec_param]. cbn [opt_or0 dset_bit d_msg d_origin d_cur d_lkeys].
+    cbn [dec_dop dec_dct]. unfold dset_bit at 1. cbn [d_msg d_origin d_cur d_lkeys]. rewrite H. cbn [bind].
+    cbn [valid_int dct_bt]. rewrite Hi. cbn [i2p bind fst snd dset_bit d_msg d_origin d_cur d_lkeys].
+    reflexivity.
 Qed.
 
 (* ---------- the loops of enc_composite / dec_composite as standalone functions ---------- *)
@@ -271,7 +290,8 @@ Section Loop.
   Variable kv : list (name * value).
   Variable vv : name -> value.
 
-  Definition good (x : fdesc) : Prop := fits x (vv (fname x)) /\ lookup (fname x) kv = Some (vv (fname x)).
+  Definition good (x : fdesc) : Prop :=
+    fits x (vv (fname x)) /\ lookup (fname x) kv = (if is_value x then Some (vv (fname x)) else None).
 
   Definition acc_step (a : list (name * value)) (x : fdesc) := update (fname x) (vv (fname x)) a.
 
@@ -308,9 +328,10 @@ Section Loop.
       + congruence.
       + intros r o lk acc. cbn [map dec_go].
         assert (R1 : e_msg s' ++ r = e_msg s1 ++ (w2 ++ r)) by (rewrite Hm2; now rewrite <- app_assoc).
-        destruct Hfit as (_ & _ & _ & Hbt & _).
+        destruct Hfit as (_ & _ & _ & Hbt & _ & _).
         rewrite (dec_flat_param f' x (e_msg s' ++ r) o (e_cur s) lk (vv (fname x)) (e_cur s1) Hbt).
-        * cbn [bind pname mkp]. rewrite Hdec2. reflexivity.
+        * cbn [bind]. replace (pname (mkp x)) with (fname x) by (unfold mkp; destruct (f_const x); reflexivity).
+          rewrite Hdec2. reflexivity.
         * rewrite R1. rewrite <- Ec0. apply Hread1.
   Qed.
 End Loop.
@@ -350,6 +371,36 @@ Proof.
     + cbn in H. apply Hx. rewrite H. now apply in_map.
 Qed.
 
+Lemma pname_mkp x : pname (mkp x) = fname x.
+Proof. unfold mkp. destruct (f_const x); reflexivity. Qed.
+
+(* the dictionary handed to the encoder holds the VALUE parameters only *)
+Lemma lookup_filtered vv : forall fl x,
+  NoDup (map fname fl) -> In x fl ->
+  lookup (fname x) (fvals vv (filter is_value fl)) = (if is_value x then Some (vv (fname x)) else None).
+Proof.
+  induction fl as [|y fl IH]; intros x ND Hx; [contradiction|].
+  inversion ND as [|? ? Hy ND']. subst. cbn [filter].
+  destruct Hx as [->|Hx].
+  - destruct (is_value x) eqn:Ev.
+    + cbn [fvals map lookup]. assert (E : bytes_eqb (fname x) (fname x) = true) by now apply bytes_eqb_eq.
+      now rewrite E.
+    + (* not in the rest either: names are distinct *)
+      assert (G : forall l, ~ In (fname x) (map fname l) -> lookup (fname x) (fvals vv (filter is_value l)) = None).
+      { induction l as [|z l IHl]; intros Hn; [reflexivity|]. cbn [filter].
+        assert (Hz : fname x <> fname z) by (intros E; apply Hn; left; now rewrite E).
+        assert (Hr : ~ In (fname x) (map fname l)) by (intros Hin; apply Hn; now right).
+        destruct (is_value z); [|now apply IHl].
+        cbn [fvals map lookup]. destruct (bytes_eqb (fname x) (fname z)) eqn:E; [apply bytes_eqb_eq in E; contradiction|].
+        now apply IHl. }
+      now apply G.
+  - assert (Hne : fname x <> fname y) by (intros E; apply Hy; rewrite <- E; now apply in_map).
+    destruct (is_value y).
+    + cbn [fvals map lookup]. destruct (bytes_eqb (fname x) (fname y)) eqn:E; [apply bytes_eqb_eq in E; contradiction|].
+      now apply IH.
+    + now apply IH.
+Qed.
+
 Lemma known_params vv : forall fl fl',
   incl fl fl' ->
   forallb (fun k => existsb (fun p => bytes_eqb (fst k) (pname p)) (map mkp fl')) (fvals vv fl) = true.
@@ -357,7 +408,7 @@ Proof.
   induction fl as [|x fl IH]; intros fl' Hi; cbn [fvals map forallb]; [reflexivity|].
   apply andb_true_iff. split; [|apply IH; intros y Hy; apply Hi; now right].
   apply existsb_exists. exists (mkp x). split; [apply in_map, Hi; now left|].
-  cbn. now apply bytes_eqb_eq.
+  rewrite pname_mkp. cbn. now apply bytes_eqb_eq.
 Qed.
 
 (* the LENGTH-KEY pass of enc_composite does nothing for these parameters *)
@@ -378,20 +429,23 @@ Definition keys_go (f : nat) :=
     end.
 
 Lemma keys_flat f : forall fl s, keys_go f (map mkp fl) s = Ok s.
-Proof. induction fl as [|x fl IH]; intros s; cbn [map keys_go mkp]; [reflexivity | apply IH]. Qed.
+Proof.
+  induction fl as [|x fl IH]; intros s; cbn [map keys_go]; [reflexivity|].
+  unfold mkp at 1. destruct (f_const x); apply IH.
+Qed.
 
 (* ---------- the theorem ---------- *)
 Theorem flat_roundtrip fl vv :
   (forall x, In x fl -> fits x (vv (fname x))) -> NoDup (map fname fl) ->
   exists msg,
-    encode_msg (map mkp fl) None (VDict (fvals vv fl)) = Ok (msg, false) /\
+    encode_msg (map mkp fl) None (VDict (fvals vv (filter is_value fl))) = Ok (msg, false) /\
     decode_msg (map mkp fl) msg = Ok (VDict (fvals vv fl)) /\
     blen msg = fold_right (fun x a => fbytes x + a) 0 fl.
 Proof.
   intros Hv ND.
-  set (ps := map mkp fl). set (kv := fvals vv fl).
+  set (ps := map mkp fl). set (kv := fvals vv (filter is_value fl)).
   assert (Hg : forall x, In x fl -> good kv vv x).
-  { intros x Hx. split; [now apply Hv | now apply lookup_fvals]. }
+  { intros x Hx. split; [now apply Hv | now apply lookup_filtered]. }
   assert (Hfuel : exists k, fuel_of ps = S (S (S k))).
   { unfold fuel_of. exists (4 * dop_size 64 (DStruct ps None) + 5)%nat. lia. }
   destruct Hfuel as (k & Hk).
@@ -401,7 +455,9 @@ Proof.
     as (s' & w & He & Hend' & Hwarn & Hm & Hw & Ho & Hdec).
   exists (e_msg s'). split; [|split].
   - unfold encode_msg. rewrite Hk. cbn [enc_composite]. cbn [estate0 e_bit Z.eqb guard bind].
-    pose proof (known_params vv fl fl (incl_refl fl)) as Hkp. fold ps in Hkp. fold kv in Hkp. rewrite Hkp. cbn [guard bind].
+    assert (Hi : incl (filter is_value fl) fl) by (intros y Hy; apply filter_In in Hy; tauto).
+    pose proof (known_params vv (filter is_value fl) fl Hi) as Hkp. fold ps in Hkp. fold kv in Hkp. rewrite Hkp.
+    cbn [guard bind].
     unfold enc_go in He. fold ps in He. unfold s0 in He. rewrite He. cbn [bind].
     pose proof (keys_flat (S (S k)) fl (set_eop s' false)) as Hkeys. unfold keys_go in Hkeys. fold ps in Hkeys.
     rewrite Hkeys. cbn [bind e_msg e_warn set_origin set_cur set_eop].
@@ -439,15 +495,14 @@ Lemma sb_flat f : forall fl c,
   0 <= c -> (forall x, In x fl -> 0 < f_bl x) ->
   sb_go (S f) (map mkp fl) c c = Some (8 * (c + fold_right (fun x a => fbytes x + a) 0 fl)).
 Proof.
-  induction fl as [|x fl IH]; intros c Hc Hpos; cbn [map sb_go fold_right mkp].
+  induction fl as [|x fl IH]; intros c Hc Hpos; cbn [map sb_go fold_right].
   - f_equal. lia.
-  - cbn [static_bits static_bits_dct].
-    assert (Hb : 0 < f_bl x) by (apply Hpos; now left).
+  - assert (Hb : 0 < f_bl x) by (apply Hpos; now left).
     assert (E : (0 + f_bl x + 7) / 8 = fbytes x) by (unfold fbytes, nbytes_of; f_equal; lia).
-    rewrite E.
     assert (Hf : 0 <= fbytes x) by (unfold fbytes, nbytes_of; apply Z.div_pos; lia).
-    replace (Z.max c (c + fbytes x)) with (c + fbytes x) by lia.
-    rewrite IH; [f_equal; lia | lia | intros y Hy; apply Hpos; now right].
+    unfold mkp at 1. destruct (f_const x); cbn [sb_go static_bits static_bits_dct]; cbv zeta;
+      rewrite E; replace (Z.max c (c + fbytes x)) with (c + fbytes x) by lia;
+      (rewrite IH; [f_equal; lia | lia | intros y Hy; apply Hpos; now right]).
 Qed.
 
 Theorem flat_static_length fl :
@@ -465,7 +520,7 @@ Qed.
 (* every encoding of such a message has exactly the statically described length *)
 Corollary flat_length_is_static fl vv msg w :
   (forall x, In x fl -> fits x (vv (fname x))) -> NoDup (map fname fl) ->
-  encode_msg (map mkp fl) None (VDict (fvals vv fl)) = Ok (msg, w) ->
+  encode_msg (map mkp fl) None (VDict (fvals vv (filter is_value fl))) = Ok (msg, w) ->
   static_bits_msg (map mkp fl) = Some (8 * blen msg).
 Proof.
   intros Hv ND He. destruct (flat_roundtrip fl vv Hv ND) as (m & He' & _ & Hl).
@@ -476,29 +531,39 @@ Qed.
 (* the hypothesis [fits] is met by unsigned and signed integers in range, and (via C01_*_values) by
    every value raw_of accepts *)
 Lemma fits_uint nm bl hl z :
-  0 < bl <= 64 -> 0 <= z < 2 ^ bl -> fits (mkF nm bl BUint None hl BUint) (VInt z).
+  0 < bl <= 64 -> 0 <= z < 2 ^ bl -> fits (mkF nm bl BUint None hl BUint None) (VInt z).
 Proof.
-  intros Hbl Hz. unfold fits. cbn [f_bl f_bt f_en f_hl f_pt is_numeric isinstance_bt].
+  intros Hbl Hz. unfold fits. cbn [f_bl f_bt f_en f_hl f_pt f_const is_numeric isinstance_bt].
   split; [lia|]. split; [replace (64 <? bl) with false by lia; reflexivity|].
-  split; [reflexivity|]. split; [reflexivity|]. apply codable_uint; lia.
+  split; [reflexivity|]. split; [reflexivity|]. split; [apply codable_uint; lia | exact I].
 Qed.
 
 Lemma fits_int nm bl en hl z raw :
   0 < bl <= 64 -> (en = None \/ en = Some Enc2C \/ en = Some Enc1C \/ en = Some EncSM) ->
-  raw_of (VInt z) bl BInt en hl = Ok raw -> fits (mkF nm bl BInt en hl BInt) (VInt z).
+  raw_of (VInt z) bl BInt en hl = Ok raw -> fits (mkF nm bl BInt en hl BInt None) (VInt z).
 Proof.
-  intros Hbl Hen Hr. unfold fits. cbn [f_bl f_bt f_en f_hl f_pt is_numeric isinstance_bt].
+  intros Hbl Hen Hr. unfold fits. cbn [f_bl f_bt f_en f_hl f_pt f_const is_numeric isinstance_bt].
   split; [lia|]. split; [replace (64 <? bl) with false by lia; reflexivity|].
-  split; [reflexivity|]. split; [reflexivity|].
+  split; [reflexivity|]. split; [reflexivity|]. split; [|exact I].
   destruct (int_raw_roundtrip z bl en hl raw ltac:(lia) Hen Hr) as [A B]. exists raw. auto.
 Qed.
 
+Lemma fits_const_uint nm bl hl z :
+  0 < bl <= 64 -> 0 <= z < 2 ^ bl -> fits (mkF nm bl BUint None hl BUint (Some (VInt z))) (VInt z).
+Proof.
+  intros Hbl Hz. unfold fits. cbn [f_bl f_bt f_en f_hl f_pt f_const is_numeric isinstance_bt].
+  split; [lia|]. split; [replace (64 <? bl) with false by lia; reflexivity|].
+  split; [reflexivity|]. split; [reflexivity|]. split; [apply codable_uint; lia | reflexivity].
+Qed.
+
+(* a typical UDS request: service id and sub-function as constants, then values *)
 Example flat_example :
-  let fl := [mkF [112; 49] 8 BUint None true BUint; mkF [112; 50] 12 BUint None false BUint;
-             mkF [112; 51] 64 BUint None true BUint; mkF [112; 52] 8 BInt (Some Enc2C) true BInt] in
-  let vv := fun nm => if bytes_eqb nm [112; 49] then VInt 34 else if bytes_eqb nm [112; 50] then VInt 2748
+  let fl := [mkF [115] 8 BUint None true BUint (Some (VInt 34));
+             mkF [112; 50] 12 BUint None false BUint None;
+             mkF [112; 51] 64 BUint None true BUint None; mkF [112; 52] 8 BInt (Some Enc2C) true BInt None] in
+  let vv := fun nm => if bytes_eqb nm [115] then VInt 34 else if bytes_eqb nm [112; 50] then VInt 2748
                       else if bytes_eqb nm [112; 51] then VInt (2 ^ 64 - 1) else VInt (-2) in
-  encode_msg (map mkp fl) None (VDict (fvals vv fl)) =
+  encode_msg (map mkp fl) None (VDict (fvals vv (filter is_value fl))) =
     Ok ([34; 188; 10; 255; 255; 255; 255; 255; 255; 255; 255; 254], false) /\
   decode_msg (map mkp fl) [34; 188; 10; 255; 255; 255; 255; 255; 255; 255; 255; 254] = Ok (VDict (fvals vv fl)) /\
   static_bits_msg (map mkp fl) = Some 96.
